@@ -93,6 +93,15 @@ DtRoundTrips(fmt, dt) ==
     /\ ((\A i \in 1..Len(fmt) : fmt[i] # "Y") /\ (\E i \in 1..Len(fmt) : fmt[i] = "y")) => (dt[1] >= 1969 /\ dt[1] <= 2068)
     /\ (\A i \in 1..Len(fmt) : fmt[i] \notin {"y", "Y"}) => dt[1] = 1900
 
+\* ISO text form "YYYY-MM-DD hh:mm:ss" (19 characters)
+IsIsoDt(t) == /\ Len(t) = 19
+              /\ \A i \in 1..19 : IF i \in {5, 8} THEN t[i] = 45 ELSE IF i = 11 THEN t[i] = 32
+                                    ELSE IF i \in {14, 17} THEN t[i] = 58 ELSE IsDigitCp(t[i])
+IsoDt(t) == <<NumVal(SubSeq(t, 1, 4)), NumVal(SubSeq(t, 6, 7)), NumVal(SubSeq(t, 9, 10)),
+              NumVal(SubSeq(t, 12, 13)), NumVal(SubSeq(t, 15, 16)), NumVal(SubSeq(t, 18, 19)), 0>>
+IsoText(dt) == ZDigits(dt[1], 4) \o <<45>> \o ZDigits(dt[2], 2) \o <<45>> \o ZDigits(dt[3], 2) \o <<32>>
+               \o ZDigits(dt[4], 2) \o <<58>> \o ZDigits(dt[5], 2) \o <<58>> \o ZDigits(dt[6], 2)
+
 (***************************************************************************)
 (* Decimals: value = <<scale, d1, d2, ...>> (non-negative, digits as code   *)
 (* points without leading zeros, `scale` fraction digits)                   *)
@@ -200,7 +209,10 @@ TextOf(f, v) ==
             ELSE IF v.t = "s" /\ AllDigits(v.v) /\ v.v # <<>> THEN [ok |-> TRUE, s |-> PadLeft(StripZeros(v.v), f.flen, 48)]
             ELSE [ok |-> FALSE, s |-> <<>>]
       [] f.py = "datetime" ->
-            IF v.t = "dt" THEN [ok |-> TRUE, s |-> FormatDt(f.fmt, v.v)] ELSE [ok |-> FALSE, s |-> <<>>]
+            IF v.t = "dt" THEN [ok |-> TRUE, s |-> FormatDt(f.fmt, v.v)]
+            \* a date-time given as text in ISO form YYYY-MM-DD hh:mm:ss (the CSV tools)
+            ELSE IF v.t = "s" /\ IsIsoDt(v.v) THEN [ok |-> TRUE, s |-> FormatDt(f.fmt, IsoDt(v.v))]
+            ELSE [ok |-> FALSE, s |-> <<>>]
       [] f.py = "decimal" ->
             \* a decimal needs a configured width (width 0 is outside the documented use: don't-care)
             IF v.t = "dec" /\ f.flen > 0 THEN [ok |-> TRUE, s |-> DecimalText(v.v, f.flen)] ELSE [ok |-> FALSE, s |-> <<>>]
